@@ -432,6 +432,10 @@ def register(reg):
                             F(c, VRef(z3.Select(c.eng.heap_arr(c.st, "CI.origin", IntS), x), ORIGIN), "Origin.scheme") == F(c, url, "URL.scheme"),
                         )
                         out.append(("request_left_queued_only_at_the_limit", ("C07", "C04"), z3.Length(cur) >= F(c, s, "Pool._max_connections")))
+                        idle_arr = c.eng.heap_arr(c.st, "CI.idle", BoolS)
+                        out.append(("request_left_queued_only_without_an_idle_connection_to_evict", ("C07", "C05"), z3.Not(exists_in(cur, xc, z3.Select(idle_arr, xc)))))
+                        org = c.new(url, "URL.scheme")
+                        avail_arr = c.eng.heap_arr(c.st, "CI.avail", BoolS)
                         out.append(("request_left_queued_creates_nothing", ("C07", "C04"), len(creates) == 0))
             return out
 
